@@ -429,6 +429,12 @@ func findNextCharsetPositionConstraint(search string, charset []byte) int {
 
 	for _, char := range charset {
 		pos := strings.IndexByte(search, char)
+		// An occurrence inside the constraint must not hide a later one behind it
+		if pos > constraintStart && pos < constraintEnd {
+			if later := strings.IndexByte(search[constraintEnd:], char); later != -1 {
+				pos = constraintEnd + later
+			}
+		}
 
 		if pos != -1 && (pos < nextPosition || nextPosition == -1) {
 			if (pos > constraintStart && pos > constraintEnd) || (pos < constraintStart && pos < constraintEnd) {
